@@ -595,7 +595,7 @@ def plan_C17(w):
     known = vlib.load_known()
     run_mc(w, [("hg1", "MC_hg1.cfg", 4, 300)])
     traces, sums = drive_all(w, gossip_specs(w, rpc_kinds(w, q)), mode="rpc")
-    td, sd = drive_all(w, gossip_specs(w, [("dyn", dict(traces=2 if q else 6, n=0, steps=330 if q else 500))]), mode="dyn")
+    td, sd = drive_all(w, gossip_specs(w, [("dyn", dict(traces=5 if q else 12, n=0, steps=330 if q else 500))]), mode="dyn")
     tvs = w.validate_many(traces + td, par=6)
     violations, known_hits, drift = judge(w, "C17", tvs, known)
     st = None
